@@ -48,9 +48,13 @@ def cases(draw):
         "clients": [draw(st.sampled_from(ELEMENT_STYLES)) for _ in range(3)],
         "leaf_clients": [draw(st.sampled_from(["import_dotted", "from_pkg_import", "from_pkg_import_as", "from_leaf_import", "import_dotted_as", "from_pkg_import_twice", "dotted_plus_namesake"])) for _ in range(2)],
         "sibling_named_like_dest": draw(st.booleans()),
+        # one client already imports a module whose dotted name merely starts with the destination's (dstx / pkg.subx)
+        "lookalike_import": draw(st.booleans()),
         "relative_in_pkg": draw(st.booleans()),
         "method_other_module": draw(st.integers(0, 3)) == 0,
         "method_uses_global": draw(st.booleans()),
+        # the moved method needs an imported module: in its header (a default value), its body, both or not at all
+        "method_import": draw(st.sampled_from(["none", "header", "body", "both"])),
     }
 
 
@@ -119,6 +123,10 @@ def render(case):
             # top-level dst.py the element may move to
             files["pkg/dst.py"] = "local_thing = 5\n"
             files[path] = "from .dst import local_thing\n" + imp + "def use():\n    return %s + local_thing\n" % u
+        if path == "c2.py" and case.get("lookalike_import"):
+            look = case["dest"] + "x"
+            files[look.replace(".", "/") + ".py"] = "LOOK = 0\n"
+            files[path] = "import %s\n" % look + files[path].replace("    return ", "    return %s.LOOK + " % look, 1)
         mains.append("import %s\nprint(%s.use())\n" % (modname, modname))
     # clients of the leaf module (for module moves out of a package)
     for k, style in enumerate(case["leaf_clients"]):
@@ -151,6 +159,14 @@ def render(case):
         mm = "import om\ndef helper_g():\n    return 9\nclass Owner:\n    def __init__(self):\n        self.other = om.Other()\n        self.z = 2\n    def meth(self, p):\n        return p + self.z%s\n" % g
     else:
         mm = "def helper_g():\n    return 9\n" + other_cls + "class Owner:\n    def __init__(self):\n        self.other = Other()\n        self.z = 2\n    def meth(self, p):\n        return p + self.z%s\n" % g
+    mi = case.get("method_import", "none")
+    if mi != "none":
+        files["hx.py"] = "SEP = 5\nTAB = 7\n"
+        mm = "import hx\n" + mm
+        if mi in ("header", "both"):
+            mm = mm.replace("def meth(self, p):", "def meth(self, p,\n             q=hx.SEP):").replace("return p + self.z", "return p + q + self.z")
+        if mi in ("body", "both"):
+            mm = mm.replace(" + self.z", " + hx.TAB + self.z")
     files["mm.py"] = mm + "def run():\n    return Owner().meth(3)\n"
     mains.append("import mm\nprint(mm.run())\n")
     files["main.py"] = "".join(mains)
